@@ -1,11 +1,8 @@
 from vlib import runner, sysprops
 
 PARTIAL = [
-    "the global statement (no call pending once nothing is woken) is a checked def (C02NoStuckStatement / "
-    "C02ServerNoStuckStatement), decided on every woken-only trace by the settle operation; the theorems proved are the "
-    "per-event wake and registration facts",
-    "wake observations of the implementation include spurious self-wakes of the timer queue that the model reproduces "
-    "only approximately; the comparison therefore uses outcomes and stuck sets after settling, not raw wake sets",
+    "the global statement is false once the dispatch has panicked (C02NoStuckStatement_false: the timer-wheel-lag panic freezes the dispatch); the bounded form C02NoStuckStatement' (clock below 2^35 ms) is a def decided on every woken-only trace by the settle operation; proved: the per-event wake and registration theorems, the accounting invariant (Props/C02Account.lean), terminal fan-out, quiescence of settle",
+    'wake observations of the implementation include spurious self-wakes of the timer queue that the model reproduces only approximately; the comparison therefore uses outcomes and stuck sets after settling, not raw wake sets',
 ]
 
 
